@@ -618,6 +618,8 @@ pub fn run(run: &Run) {
     formula_grid(run);
     // the process-wide inflator table under every interleaving of a few threads (loom), then the free-running sampling supplement
     crate::loomrun::inflator_interleavings(run, "C18");
+    // two record-setting mints in one batch, in both orders, with apply_tx_batch itself under loom (every cut of the parallel fold, every interleaving)
+    crate::loomrun::stf_interleavings(run, "C18", &["two-mints", "two-mints-reversed"]);
     concurrent_inflator_lookups(run, thorough);
     run.set("ages", json!({"custom02": ages, "mainnet": m_ages}));
     run.set("difficulties", json!(diffs.iter().map(|(d, t)| format!("{}{}", d, if *t { "/tip910" } else { "/legacy" })).collect::<Vec<_>>()));
